@@ -145,7 +145,8 @@ func show(r run) string {
 
 func check(c Case, st *core.Stats) error {
 	st.Class("op:" + c.Op)
-	limit := arith.NearLimit(c.Case, nil)
+	// near the +/-100000 package limits (operands or exact result) errors are documented
+	limit := arith.NearLimit(c.Case, nil) || arith.Reference(c.Case).Limit
 	rs := map[string]run{}
 	var failed error
 	core.Guard(st, func() {
